@@ -1152,7 +1152,7 @@ Qed.
    classImplementsOnly(C, I1); b = C(); directlyProvides(b, I0) *)
 Definition f1_graph : igraph := [[]; []].
 Definition f1_history : list op :=
-  [NewClass [] None false; Implementer 0 [AI 0]; NewInstance 0; DirectlyProvides (TInst 0) [AI 0];
+  [NewClass [] None false None; Implementer 0 [AI 0]; NewInstance 0; DirectlyProvides (TInst 0) [AI 0];
    ClassImplementsOnly 0 [AI 1]; NewInstance 0; DirectlyProvides (TInst 1) [AI 0]].
 
 Lemma stale_cache_refuted_lemma :
